@@ -989,3 +989,20 @@ func BodiesOf(p *core.Program, fn *core.Fn) []Body {
 	})
 	return out
 }
+
+// BreaksLoop reports whether the unlabelled `break` br, found under the body of
+// a loop, leaves that loop (and not a nested switch, select or loop). A
+// labelled break is assumed to leave it.
+func BreaksLoop(body *ast.BlockStmt, br *ast.BranchStmt) bool {
+	if br.Label != nil {
+		return true
+	}
+	path := core.PathTo(body, br)
+	for _, n := range path {
+		switch n.(type) {
+		case *ast.SwitchStmt, *ast.TypeSwitchStmt, *ast.SelectStmt, *ast.ForStmt, *ast.RangeStmt:
+			return false
+		}
+	}
+	return len(path) > 0
+}
